@@ -28,6 +28,11 @@ let ops : float ops =
     oeqb = (fun a b -> a = b); oltb = (fun a b -> note a b; a < b); oleb = (fun a b -> note a b; a <= b) }
 
 let floats s = List.map float_of_string (split_ws s)
+(* number of evaluations of the cost function so far, and the values of that counter at which the linear solver returned a
+   component that is zero or below 1e-9 of its largest component: the SIGN of such a component (it decides whether a
+   variable at a bound is released) is rounding noise, and may differ between two solvers *)
+let ncost = ref 0
+let ties : int list ref = ref []
 let solve (m : float list list) (g : float list) : float list =
   let n = List.length g in
   let a = Array.of_list (List.map Array.of_list m) and b = Array.of_list g in
@@ -48,6 +53,8 @@ let solve (m : float list list) (g : float list) : float list =
       b.(c) <- !s /. a.(c).(c)
     done
   with _ -> ());
+  let mx0 = Array.fold_left (fun a v -> Float.max a (Float.abs v)) 0.0 b in
+  if mx0 > 0.0 && Array.exists (fun v -> Float.abs v <= 1e-9 *. mx0) b then ties := !ncost :: !ties;
   if pert = 0 then Array.to_list b
   else if pert <= 20 then List.map (fun v -> v *. (1.0 +. pnext ())) (Array.to_list b)
   else begin
@@ -80,7 +87,7 @@ let () =
               if n = 1 then c := (1.0 -. x.(0)) ** 2.0 end;
             !c in
           (* heavy perturbation: the cost function itself by one ulp (std::pow / log and their OCaml counterparts, summation order) *)
-          let cost xl = let c = cost0 xl in if pert <= 20 then c else c *. (1.0 +. pnext ()) in
+          let cost xl = incr ncost; let c = cost0 xl in if pert <= 20 then c else c *. (1.0 +. pnext ()) in
           let grad0 (xl : float list) : float list =
             let x = Array.of_list xl in
             let g = Array.make n 0.0 in
@@ -119,7 +126,7 @@ let () =
           let ofnat k = float_of_int (int_of_nat k) in
           let s = { max_it = z_of_int maxit; max_step = float_of_string maxstep; thr = float_of_string thr; ensure = z_of_int (int_of_string ens);
                     d_min = 1.0 /. 128.0; d_max = 100000.0; d_mult = 2.0; d_div = 5.0; d_start = 0.0; d_restart = 0.25 } in
-          margin := infinity; pstate := pert * 7919 + 1;
+          margin := infinity; pstate := pert * 7919 + 1; ncost := 0; ties := [];
           let fo = nat_of_int (maxit + 2) and fi = nat_of_int 64 in
           let additive = (algo = 3) in
           let r =
@@ -141,9 +148,10 @@ let () =
               else cg_unbounded ops cost grad norm2p sqrt isfinite fo gs k (algo = 2) x0 (-1.0) infinity
             end in
           let states = List.filter_map (function EvCost x -> Some x | EvCostGradHess x -> Some x | EvProgress _ -> None) r.r_log in
-          Printf.printf "R %d %d %d | %s %s %s | %s | %.3e | E%s\n" (int_of_z (status_code r.r_status)) (int_of_z r.r_iter) (int_of_z r.r_samples)
+          Printf.printf "R %d %d %d | %s %s %s | %s | %.3e | E%s | T%s\n" (int_of_z (status_code r.r_status)) (int_of_z r.r_iter) (int_of_z r.r_samples)
             (fstr r.r_cost) (fstr r.r_start_cost) (fstr r.r_gnorm) (String.concat " " (List.map fstr r.r_x)) !margin
             (String.concat "" (List.map (fun x -> " " ^ String.concat " " (List.map fstr x) ^ " ;") states))
+            (String.concat "" (List.map (fun c -> " " ^ string_of_int c) (List.rev !ties)))
         | _ -> print_endline "?")
      | _ -> print_endline "?")
   done with End_of_file -> ()
